@@ -63,6 +63,10 @@ let dispatch (comp : string) (items : M.item list) : verdict =
   | "TR" -> VB (M.tr_check_items items)
   | "CN" -> VB (M.cn_check_items items)
   | "CG" -> VB (M.cg_check_items items)
+  | "JD" -> VB (M.jd_check_items items)
+  | "MG" -> VB (M.mg_check_items items)
+  | "MS" -> VB (M.ms_check_items items)
+  | "SS" -> VB (M.ss_check_items items)
   | _ -> failwith ("unknown component " ^ comp)
 
 let rec int_of_pos (p : M.positive) : int =
